@@ -168,10 +168,17 @@ _LT = re.compile(r"::<'[a-z_0-9]+(?:, '[a-z_0-9]+)*>")
 _LT2 = re.compile(r"<'[a-z_0-9]+(?:, '[a-z_0-9]+)*>")
 
 
+_LT3 = re.compile(r"'[a-z_0-9]+, ")
+_LT4 = re.compile(r", '[a-z_0-9]+(?=[,>])")
+
+
 def norm_path(p):
-    """Strip elided-lifetime generic lists so paths read like source paths."""
+    """Strip lifetime arguments so paths read like source paths and do not depend on whether a
+    lifetime was named or elided."""
     p = _LT.sub("", p)
     p = _LT2.sub("", p)
+    p = _LT3.sub("", p)
+    p = _LT4.sub("", p)
     return p
 
 
